@@ -61,10 +61,10 @@ def provenance(ctx: Ctx):
     som = slice_measures_obj(ctx)
     for name in ("rows_pruning_mask", "columns_pruning_mask"):
         labels = data_labels(measure_blocks_reads(ctx, som, name))
-        ctx.ob("provenance", f"matrix/measure.py::SecondOrderMeasures.{name}", sorted(labels), "['U']", labels == {"U"}, "emptiness is decided from unweighted counts only (weights play no part)")
+        ctx.ob("provenance", f"matrix/measure.py::SecondOrderMeasures.{name}", sorted(labels), "['U']", (labels == {"U"}) if labels else None, "emptiness is decided from unweighted counts only (weights play no part)")
     sm = strand_measures_obj(ctx)
     labels = data_labels(measure_blocks_reads(ctx, sm, "pruning_base"))
-    ctx.ob("provenance", "stripe/measure.py::StripeMeasures.pruning_base", sorted(labels), "['U']", labels == {"U"})
+    ctx.ob("provenance", "stripe/measure.py::StripeMeasures.pruning_base", sorted(labels), "['U']", (labels == {"U"}) if labels else None)
     # the masks read by the order helpers are those
     for cname, short in (("_BaseOrderHelper", MA),):
         ci = ctx.repo.cls(short, cname)
